@@ -15,7 +15,7 @@ use std::time::{Duration, SystemTime};
 
 use scion_stack::path::PathStrategy;
 use scion_stack::path::fetcher::traits::{PathFetchError, PathFetcher};
-use scion_stack::path::manager::traits::{PathManager, PathWaitError};
+use scion_stack::path::manager::traits::{PathManager, PathWaitError, PathWaitTimeoutError};
 use scion_stack::path::manager::verif_trace as vt;
 use scion_stack::path::manager::{MultiPathManager, MultiPathManagerConfig};
 use sciparse::address::ip_addr::ScionIpAddr;
@@ -65,7 +65,7 @@ impl PathFetcher for Fetcher {
 
 // ---------------------------------------------------------------- scenario
 #[derive(Clone, Debug)]
-struct WSpec { kind: u8, wave: u8, pre_yields: u32, pre_sleep_us: u64 }
+struct WSpec { kind: u8, wave: u8, pre_yields: u32, pre_sleep_us: u64, timeout_us: u64 } // kind: 0 path_wait, 1 cached_path, 2 path_timeout
 #[derive(Clone, Debug)]
 struct Scenario {
     name: String,
@@ -74,19 +74,19 @@ struct Scenario {
     answers: Vec<Ans>,
     idle_ms: u64,
     refetch_ms: u64,
-    gap_ms: u64,               // between wave 0 and wave 1
-    stop_in_wave: [Option<(u32, u64)>; 2],   // (yields, sleep_us) before stop_managing_paths
+    gap_ms: [u64; 3],          // sleep before wave k (index 0 unused)
+    stop_in_wave: [Option<(u32, u64)>; 3],   // (yields, sleep_us) before stop_managing_paths
     final_wait_ms: u64,        // before the drop
     perturb: u32,              // 0 none, 1 light, 2 heavy
     seed: u64,
 }
 
 #[derive(Clone, Copy, Debug, PartialEq, Eq, Hash, PartialOrd, Ord)]
-enum Res { Path, NoneCached, ENoPaths, EInternal, EExit(u8), Panic, Unknown }
+enum Res { Path, NoneCached, ENoPaths, EInternal, EExit(u8), Timeout, Panic, Unknown }
 impl Res {
     fn coq(self) -> Option<String> {
         Some(match self {
-            Res::Path => "RPath".into(), Res::NoneCached => "RNone".into(),
+            Res::Path => "RPath".into(), Res::NoneCached => "RNone".into(), Res::Timeout => "RTimeout".into(),
             Res::ENoPaths => "(RErr ENoPaths)".into(), Res::EInternal => "(RErr EInternal)".into(),
             Res::EExit(0) => "(RErr (EExit XMgrDropped))".into(),
             Res::EExit(1) => "(RErr (EExit XCancelled))".into(),
@@ -124,10 +124,10 @@ async fn drive(sc: Scenario, sink: Arc<vt::Sink>) -> Outcome {
     let mgr = MultiPathManager::new(cfg, Fetcher(script.clone()), PathStrategy::default()).expect("config");
     let (src, dst) = (SRC.isd_asn(), DST.isd_asn());
     let mut handles = Vec::new();
-    for wave in 0..2u8 {
-        if wave == 1 {
-            if !sc.waiters.iter().any(|w| w.wave == 1) && sc.stop_in_wave[1].is_none() { break; }
-            tokio::time::sleep(Duration::from_millis(sc.gap_ms)).await;
+    for wave in 0..3u8 {
+        if wave >= 1 {
+            if !sc.waiters.iter().any(|w| w.wave >= wave) && sc.stop_in_wave[wave as usize..].iter().all(|s| s.is_none()) { break; }
+            tokio::time::sleep(Duration::from_millis(sc.gap_ms[wave as usize])).await;
         }
         for (i, w) in sc.waiters.iter().enumerate() {
             if w.wave != wave { continue; }
@@ -141,6 +141,15 @@ async fn drive(sc: Scenario, sink: Arc<vt::Sink>) -> Outcome {
                         Ok(_) => Res::Path,
                         Err(PathWaitError::NoPathFound) => Res::ENoPaths,
                         Err(PathWaitError::FetchFailed(e)) => Res::from_class(vt::err_class(Some(&e))),
+                        Err(_) => Res::Unknown,
+                    }
+                } else if w.kind == 2 {
+                    match m.path_timeout(src, dst, now, Duration::from_micros(w.timeout_us)).await {
+                        Ok(_) => Res::Path,
+                        Err(PathWaitTimeoutError::NoPathFound) => Res::ENoPaths,
+                        Err(PathWaitTimeoutError::FetchFailed(e)) => Res::from_class(vt::err_class(Some(&e))),
+                        // the path() future has just been dropped by tokio::time::timeout
+                        Err(PathWaitTimeoutError::Timeout) => { vt::push(vt::Kind::Harness, 0, 100 + i as u64); Res::Timeout }
                         Err(_) => Res::Unknown,
                     }
                 } else {
@@ -160,7 +169,7 @@ async fn drive(sc: Scenario, sink: Arc<vt::Sink>) -> Outcome {
         }
     }
     // join with a deadline: a caller that does not return is a hang
-    let deadline = tokio::time::Instant::now() + Duration::from_secs(6);
+    let deadline = tokio::time::Instant::now() + Duration::from_secs(15);
     let mut results = Vec::new();
     let mut hung = false;
     for (i, h) in handles {
@@ -177,7 +186,7 @@ async fn drive(sc: Scenario, sink: Arc<vt::Sink>) -> Outcome {
     vt::push(vt::Kind::Harness, 0, 1);
     drop(mgr);
     // grace period: every worker must run its exit sequence
-    let t_end = tokio::time::Instant::now() + Duration::from_secs(3);
+    let t_end = tokio::time::Instant::now() + Duration::from_secs(10);
     let mut exited_all = false;
     loop {
         let (spawned, cleared) = {
@@ -198,8 +207,12 @@ async fn drive(sc: Scenario, sink: Arc<vt::Sink>) -> Outcome {
 fn run_scenario(sc: &Scenario) -> Outcome {
     let prng = Mutex::new(Rng::new(sc.seed ^ 0x5151));
     let (perturb, mt) = (sc.perturb, sc.threads > 0);
-    let pause: Box<dyn Fn(u32) -> u32 + Send + Sync> = Box::new(move |_k| {
+    let pause: Box<dyn Fn(u32) -> u32 + Send + Sync> = Box::new(move |k| {
         if perturb == 0 { return 0; }
+        // scripted modes: 3 = callers slow between their steps, 4 = worker slow while exiting, 5 = both
+        if perturb == 3 { return if k == 2 || k == 4 { 5 } else { 0 }; }
+        if perturb == 4 { return if k == 7 || k == 8 { 5 } else { 0 }; }
+        if perturb == 5 { return if k == 2 || k == 4 || k == 7 || k == 8 { 3 } else { 0 }; }
         let mut r = prng.lock().unwrap();
         let p = if perturb == 1 { 4 } else { 2 };
         if r.below(p) != 0 { return 0; }
@@ -229,12 +242,19 @@ fn run_scenario(sc: &Scenario) -> Outcome {
 // ---------------------------------------------------------------- translation to Coq
 struct Translated { labels: Vec<String>, ok: bool, why: String, nps: usize, addr: HashMap<usize, usize> }
 
+/// the worker behind a removal logged without caller identity: the one whose ExitRemoveDone is
+/// the next event of the same thread (no await point lies between the two)
+fn remover(events: &[vt::Ev], k: usize) -> Option<usize> {
+    events[k + 1..].iter().find(|e| e.thread == events[k].thread).and_then(|e| if e.kind == vt::Kind::ExitRemoveDone { Some(e.pset) } else { None })
+}
+
 fn translate(events: &[vt::Ev]) -> Translated {
     use vt::Kind::*;
     let mut addr: HashMap<usize, usize> = HashMap::new();
     let mut nps = 0usize;
     let mut labels = Vec::new();
     let mut load1_hit: HashSet<u64> = HashSet::new();
+    let mut removal_pending: HashSet<usize> = HashSet::new();   // workers between Quit and their removal
     let mut bad = String::new();
     for (k, e) in events.iter().enumerate() {
         let b = |x: u64| coq_bool(x != 0);
@@ -269,16 +289,23 @@ fn translate(events: &[vt::Ev]) -> Translated {
             Quit => {
                 need_ps = true;
                 if e.arg > 2 { bad = format!("event {k}: quit reason {}", e.arg); break; }
+                removal_pending.insert(e.pset);
                 format!("LQuit {} {}", ps.unwrap_or(999), ["XMgrDropped", "XCancelled", "XIdle"][e.arg as usize])
             }
             Removed => {
                 if e.actor == USER { "LStop".to_string() }
-                else if e.actor == 0 { need_ps = true; format!("LExitRemove {}", ps.unwrap_or(999)) }
+                else if e.actor == 0 {
+                    match remover(events, k).and_then(|a| addr.get(&a).copied().map(|x| (a, x))) {
+                        Some((a, x)) => { removal_pending.remove(&a); format!("LExitRemove {x}") }
+                        None => { bad = format!("event {k}: removal by an unidentified worker"); break; }
+                    }
+                }
                 else { bad = format!("event {k}: removal by caller {}", e.actor); break; }
             }
+            ExitRemoveDone => { need_ps = true; if !removal_pending.remove(&e.pset) { continue; } format!("LExitSkip {}", ps.unwrap_or(999)) }
             ExitBlock => { need_ps = true; format!("LExitBlock {}", ps.unwrap_or(999)) }
             ExitClear => { need_ps = true; format!("LExitClear {}", ps.unwrap_or(999)) }
-            Harness => "LDrop".to_string(),
+            Harness => if e.arg >= 100 { format!("LAbandon {}", e.arg - 100) } else { "LDrop".to_string() },
         };
         if need_caller && !caller_ok { bad = format!("event {k}: {:?} without caller identity", e.kind); break; }
         if need_ps && ps.is_none() { bad = format!("event {k}: {:?} for unknown path set", e.kind); break; }
@@ -303,13 +330,15 @@ fn gen_random(r: &mut Rng, idx: usize, mt_share: u64) -> Scenario {
     let big = r.chance(1, 6);
     let n = 1 + r.below(if big { 12 } else { 6 }) as usize;
     let two_waves = r.chance(1, 2);
+    let three_waves = two_waves && r.chance(1, 3);
     let idle_ms = *r.pick(&[12u64, 20, 20, 10_000]);
     let refetch_ms = *r.pick(&[15u64, 30, 60_000, 60_000]);
     let mut waiters = Vec::new();
     for _ in 0..n {
         waiters.push(WSpec {
-            kind: if r.chance(3, 4) { 0 } else { 1 },
-            wave: if two_waves && r.chance(2, 5) { 1 } else { 0 },
+            kind: *r.pick(&[0u8, 0, 0, 0, 1, 1, 2, 2]),
+            timeout_us: *r.pick(&[0u64, 100, 500, 2000, 8000, 50_000]),
+            wave: if two_waves && r.chance(2, 5) { if three_waves && r.chance(1, 2) { 2 } else { 1 } } else { 0 },
             pre_yields: r.below(6) as u32,
             pre_sleep_us: if r.chance(1, 3) { r.below(4000) } else { 0 },
         });
@@ -323,21 +352,23 @@ fn gen_random(r: &mut Rng, idx: usize, mt_share: u64) -> Scenario {
     let stop = |r: &mut Rng| if r.chance(1, 3) { Some((r.below(8) as u32, if r.chance(1, 2) { r.below(5000) } else { 0 })) } else { None };
     let s0 = stop(r);
     let s1 = if two_waves { stop(r) } else { None };
-    let gap_ms = *r.pick(&[0u64, 1, idle_ms.min(30) / 2, (idle_ms.min(30) * 5) / 2, refetch_ms.min(40)]);
+    let s2 = if three_waves { stop(r) } else { None };
+    let gaps = [0u64, 1, idle_ms.min(30) / 2, (idle_ms.min(30) * 5) / 2, refetch_ms.min(40)];
+    let gap_ms = [0, *r.pick(&gaps), *r.pick(&gaps)];
     Scenario {
         name: format!("rand{idx}"), threads, waiters, answers, idle_ms, refetch_ms, gap_ms,
-        stop_in_wave: [s0, s1],
+        stop_in_wave: [s0, s1, s2],
         final_wait_ms: *r.pick(&[0u64, 0, 3, (idle_ms.min(30) * 5) / 2]),
         perturb: r.below(3) as u32, seed: r.next(),
     }
 }
 
 fn gen_directed(seed: u64) -> Vec<Scenario> {
-    let w = |kind, wave, y| WSpec { kind, wave, pre_yields: y, pre_sleep_us: 0 };
+    let w = |kind, wave, y| WSpec { kind, wave, pre_yields: y, pre_sleep_us: 0, timeout_us: 1500 };
     let a = |res, yields, sleep_ms| Ans { res, yields, sleep_ms };
     let base = |name: &str, threads, waiters: Vec<WSpec>, answers: Vec<Ans>| Scenario {
-        name: name.into(), threads, waiters, answers, idle_ms: 10_000, refetch_ms: 60_000, gap_ms: 0,
-        stop_in_wave: [None, None], final_wait_ms: 0, perturb: 0, seed,
+        name: name.into(), threads, waiters, answers, idle_ms: 10_000, refetch_ms: 60_000, gap_ms: [0, 0, 0],
+        stop_in_wave: [None, None, None], final_wait_ms: 0, perturb: 0, seed,
     };
     let mut v = Vec::new();
     for threads in [0usize, 3] {
@@ -350,24 +381,53 @@ fn gen_directed(seed: u64) -> Vec<Scenario> {
         v.push(base("arrive-at-completion", threads, (0..10).map(|i| w(0, 0, i)).collect(), vec![a(3, 4, 0)]));
         // stop while waiting, successor worker, stale worker's exit
         let mut s = base("stop-while-waiting", threads, vec![w(0, 0, 0), w(0, 0, 1), w(0, 1, 0), w(0, 1, 2)], vec![a(0, 6, 3), a(0, 2, 1), a(3, 2, 0)]);
-        s.stop_in_wave = [Some((2, 0)), Some((1, 0))]; s.gap_ms = 1;
+        s.stop_in_wave = [Some((2, 0)), Some((1, 0)), None]; s.gap_ms = [0, 1, 0];
         v.push(s);
         // idle removal, then new callers
         let mut s = base("idle-removal-then-callers", threads, vec![w(0, 0, 0), w(1, 0, 0), w(0, 1, 0), w(0, 1, 1)], vec![a(3, 1, 0), a(0, 1, 2)]);
-        s.idle_ms = 12; s.gap_ms = 40; s.final_wait_ms = 40;
+        s.idle_ms = 12; s.gap_ms = [0, 40, 0]; s.final_wait_ms = 40;
         v.push(s);
         // callers racing the idle exit
         let mut s = base("race-idle-exit", threads, vec![w(0, 0, 0), w(0, 1, 0), w(0, 1, 1), w(0, 1, 3), w(1, 1, 2)], vec![a(2, 1, 0), a(0, 1, 1)]);
-        s.idle_ms = 12; s.gap_ms = 24; s.perturb = 2;
+        s.idle_ms = 12; s.gap_ms = [0, 24, 0]; s.perturb = 2;
         v.push(s);
         // refetch cycles with late callers
         let mut s = base("refetch-late-callers", threads, vec![w(0, 0, 0), w(0, 1, 0), w(0, 1, 2), w(1, 1, 1)], vec![a(1, 1, 1), a(1, 2, 4), a(0, 2, 4)]);
-        s.refetch_ms = 15; s.gap_ms = 16; s.final_wait_ms = 20;
+        s.refetch_ms = 15; s.gap_ms = [0, 16, 0]; s.final_wait_ms = 20;
+        v.push(s);
+        // stop_managing_paths leaves the worker running (the removed map entry, and with it the
+        // cancel token, is dropped later); the next request starts a second worker; when the first
+        // one goes idle its exit removes the SECOND worker's entry; the third request starts a third
+        let mut s = base("stale-exit-removes-successor", threads, vec![w(0, 0, 0), w(0, 1, 0), w(0, 2, 0), w(1, 2, 1)], vec![a(0, 1, 0)]);
+        s.idle_ms = 12; s.stop_in_wave = [Some((40, 0)), None, None]; s.gap_ms = [0, 2, 32]; s.final_wait_ms = 5;
         v.push(s);
         // drop while a lookup started by cached_path is still running
         v.push(base("drop-during-lookup", threads, vec![w(1, 0, 0), w(1, 0, 1)], vec![a(0, 3, 15)]));
+        // callers that give up (path_timeout) around the completion of a slow lookup
+        v.push(base("timeouts-around-completion", threads, (0..8).map(|i| w(if i % 2 == 0 { 2 } else { 0 }, 0, i)).collect(), vec![a(0, 2, 2), a(0, 1, 0)]));
+        let mut s = base("timeouts-all-give-up", threads, (0..4).map(|i| w(2, 0, i)).collect(), vec![a(3, 2, 12)]);
+        s.waiters.push(w(0, 1, 0)); s.gap_ms = [0, 3, 0];
+        v.push(s);
         // nobody ever asks: drop of an empty manager
         v.push(base("drop-empty", threads, vec![], vec![a(0, 0, 0)]));
+    }
+    // callers holding a handle of a worker that is cancelled and exits under them: sweep the
+    // moment of stop_managing_paths against the callers' and the worker's scripted slowness
+    for mode in [3u32, 4, 5] {
+        for res in [3u8, 0] {
+            for stop_y in 0..12u32 {
+                let mut s = base(&format!("stop-sweep-m{mode}-r{res}-y{stop_y}"), 0,
+                    vec![w(0, 0, 0), w(0, 0, 2), w(0, 0, 4), w(0, 0, 6), w(0, 0, 8), w(1, 0, 5)],
+                    vec![a(res, 3, 0), a(res, 1, 0)]);
+                s.stop_in_wave = [Some((stop_y, 0)), None, None];
+                s.perturb = mode;
+                v.push(s);
+            }
+        }
+    }
+    if std::env::var("VERIF_C20_SELFTEST").as_deref() == Ok("hang") {
+        // self-test of the hang detector: a lookup that never finishes (premise violated on purpose)
+        v.insert(0, base("SELFTEST-lookup-never-finishes", 0, vec![w(0, 0, 0), w(0, 0, 1)], vec![a(0, 0, 3_600_000)]));
     }
     v
 }
@@ -398,7 +458,7 @@ fn main() {
         }
     });
 
-    let mut sh = Shards::new(&out, "From Coq Require Import NArith List.\nFrom Sci Require Import Sync.Cases.\nImport ListNotations.\nOpen Scope nat_scope.", "scase", "verdicts", 40);
+    let mut sh = Shards::new(&out, "From Coq Require Import NArith List.\nFrom Sci Require Import Sync.Cases.\nImport ListNotations.\nOpen Scope nat_scope.", "scase", "verdicts", 20);
     let mut sum = Summary::default();
     let mut traces: HashSet<String> = HashSet::new();
     let mut outcomes: HashSet<String> = HashSet::new();
@@ -420,6 +480,38 @@ fn main() {
             if e.kind == vt::Kind::Check { sum.count(if e.arg == 1 { "check.returned_at_once" } else { "check.registered" }); }
             if e.kind == vt::Kind::Removed { sum.count(if e.actor == USER { "removed.by_user" } else { "removed.by_worker" }); }
             if e.kind == vt::Kind::Fetched { sum.count(&format!("fetched.{}", ["ok", "empty", "error"][e.arg.min(2) as usize])); }
+        }
+        // observations on the map (replayed from the trace): a worker's exit removing an entry that
+        // is not its own; cancellation observed before the drop; a worker still running (no Quit)
+        // when its successor is spawned
+        {
+            let mut map: Option<usize> = None;
+            let mut quit: HashSet<usize> = HashSet::new();
+            let mut dropped = false;
+            let mut ids: HashMap<usize, usize> = HashMap::new();
+            let mut n = 0usize;
+            for (k, e) in o.events.iter().enumerate() {
+                match e.kind {
+                    vt::Kind::Ensure if e.arg == 1 => {
+                        if (0..n).any(|x| !quit.contains(&x)) { sum.count("obs.spawn_while_predecessor_still_running"); }
+                        ids.insert(e.pset, n); map = Some(n); n += 1;
+                    }
+                    vt::Kind::Quit => {
+                        if let Some(x) = ids.get(&e.pset) { quit.insert(*x); }
+                        if e.arg == 1 && !dropped { sum.count("obs.cancelled_before_drop"); }
+                        if e.arg == 1 && dropped { sum.count("obs.cancelled_after_drop"); }
+                    }
+                    vt::Kind::Removed => {
+                        if e.actor == 0 {
+                            let me = remover(&o.events, k).and_then(|a| ids.get(&a).copied());
+                            if map.is_some() && map != me { sum.count("obs.exit_removed_successors_entry"); }
+                        }
+                        map = None;
+                    }
+                    vt::Kind::Harness => dropped = true,
+                    _ => {}
+                }
+            }
         }
         let mut labels = t.labels.clone();
         if !t.ok { labels.push("LWake 99999".into()); }   // a label the model refuses: forces bit 1
@@ -446,9 +538,9 @@ fn main() {
         });
         if traces.insert(tr_short.clone()) && o.events.len() > 3 { nontrivial += 1; }
         outcomes.insert(oc_key);
-        let line = format!("{} {} callers={:?} answers={:?} idle={}ms refetch={}ms gap={}ms stop={:?} final_wait={}ms perturb={} seed={} hung={} exited_all={} {} results={:?} trace: {}",
+        let line = format!("{} {} callers={:?} answers={:?} idle={}ms refetch={}ms gaps={:?}ms stop={:?} final_wait={}ms perturb={} seed={} hung={} exited_all={} {} results={:?} trace: {}",
             sc.name, if strict { "ct".to_string() } else { format!("mt{}", sc.threads) },
-            sc.waiters.iter().map(|w| format!("{}{}y{}", if w.kind == 0 { "p" } else { "c" }, w.wave, w.pre_yields)).collect::<Vec<_>>(),
+            sc.waiters.iter().map(|w| format!("{}{}y{}", ["p", "c", "t"][w.kind as usize], w.wave, w.pre_yields)).collect::<Vec<_>>(),
             sc.answers.iter().map(|a| format!("{}y{}s{}", ["ok", "empty", "notfound", "err"][a.res as usize], a.yields, a.sleep_ms)).collect::<Vec<_>>(),
             sc.idle_ms, sc.refetch_ms, sc.gap_ms, sc.stop_in_wave, sc.final_wait_ms, sc.perturb, sc.seed, o.hung, o.exited_all,
             if t.ok { String::new() } else { format!("UNTRANSLATABLE({})", t.why) }, o.results, tr_short);
